@@ -351,7 +351,8 @@ for _nm, _fx in PREFIXES.items():
     _deep = 1 if _nm in IN_EXPRESSION else 2
     for _M in range(_deep + 1):
         _reg_prefix(_nm, _fx, _M, "quick")
-    _reg_prefix(_nm, _fx, _deep + 1, "thorough")
+    if _nm not in IN_EXPRESSION:     # (two arbitrary tokens inside an expression: > 4 GB and no end in a probe)
+        _reg_prefix(_nm, _fx, _deep + 1, "thorough")
 
 
 def span_scenarios():
